@@ -52,15 +52,21 @@ class C19:
 
     def strategy(self, tier):
         lat = st.sampled_from([0.0002, 0.0005, 0.001, 0.0025])
-        return st.builds(lambda sh, ds, seed, lc, ls, cm: dict(sh, data_seed=ds, seeds=[seed], lat={"C": [lc], "S": [ls]}, max_cmdt=cm),
-                         st.sampled_from(shapes()), st.integers(0, 10 ** 5), st.integers(1, 0xFFFE), lat, lat,
-                         st.sampled_from([[1, 1], [255, 255], [2, 1]]))
+        return st.builds(lambda sh, ds, seed, lc, ls, cm, sas: dict(sh, data_seed=ds, seeds=[seed], lat={"C": [lc], "S": [ls]}, max_cmdt=cm, sas=sas),
+                         st.sampled_from(shapes()), st.integers(0, 10 ** 5), st.integers(0, 0xFFFF), lat, lat,
+                         st.sampled_from([[1, 1], [255, 255], [2, 1]]), st.sampled_from([[0xF9, 0xD4, 0xA7], [0xF9, 0xD4, 0xA7], [0x00, 0xD4, 0xA7], [0x01, 0x00, 0xFD], [0xFD, 0x80, 0x00], [0x7F, 0xFD, 0x01]]))
 
     def examples(self, tier):
         return 48 if tier == "quick" else 30000
 
     def enumerate(self, tier):
-        return [dict(sh, data_seed=7 + i, seeds=[0xA55A], lat={"C": [0.0005], "S": [0.0005]}, max_cmdt=[1, 1]) for i, sh in enumerate(shapes())]
+        out = []
+        for i, sh in enumerate(shapes()):
+            for sas in ([0xF9, 0xD4, 0xA7], [0x00, 0xD4, 0xA7]):       # incl. the boundary requester address 0
+                if sas[0] == 0 and sh["copies"] == 3 and sh["nbytes"] == 4:
+                    continue
+                out.append(dict(sh, data_seed=7 + i, seeds=[0xA55A], lat={"C": [0.0005], "S": [0.0005]}, max_cmdt=[1, 1], sas=sas))
+        return out
 
     def exhaustive(self, tier):
         return True
@@ -69,21 +75,23 @@ class C19:
         return "exhaustive over the injection point k (every bus frame of the undisturbed transaction except the closing one), per shape"
 
     def _one(self, p, k):
+        SA_C, SA_S, SA_I = p.get("sas", [D.SA_C, D.SA_S, D.SA_I])
         size = 1
         count = p["nbytes"]
         inject = None
         if k is not None:
             if p["intruder"] == "other_sa":
-                sa, ptr = D.SA_I, ADDR
+                sa, ptr = SA_I, ADDR
             elif p["intruder"] == "other_sa_other_ptr":
-                sa, ptr = D.SA_I, OTHER_PTR
+                sa, ptr = SA_I, OTHER_PTR
             else:
-                sa, ptr = D.SA_C, OTHER_PTR
+                sa, ptr = SA_C, OTHER_PTR
             cmd = 2 if p.get("icmd") == "write" else 1
             data = [count, (1 << 4) + (cmd << 1) + 1] + list(ptr.to_bytes(4, "little")) + [0x07, 0x00]
-            fr = simbus.mkframe(R.mk_id(6, 0, 0xD9, D.SA_S, sa), data)
+            fr = simbus.mkframe(R.mk_id(6, 0, 0xD9, SA_S, sa), data)
             inject = [{"after_k": k, "node": "I", "frame": fr} for _ in range(p["copies"])]
-        pp = {"seed_key": p["seed_key"], "seeds": p["seeds"], "lat": dict(p["lat"], I=[1e-6]), "max_cmdt": p["max_cmdt"]}
+        pp = {"seed_key": p["seed_key"], "seeds": p["seeds"], "lat": dict(p["lat"], I=[1e-6]), "max_cmdt": p["max_cmdt"],
+              "sa_c": SA_C, "sa_s": SA_S, "sa_i": SA_I}
         dw = D.Dm14World(pp, inject=inject)
         try:
             data = D.mem_bytes(p["data_seed"], count)
@@ -141,9 +149,9 @@ class C19:
             V = mkV(k)
             for k2, detail, tt in obs["live"]:
                 V("liveness-" + k2, "%s %r" % (k2, detail))
-            sa_i = D.SA_I if p["intruder"].startswith("other_sa") else D.SA_C
+            SA_C, SA_S, SA_I = p.get("sas", [D.SA_C, D.SA_S, D.SA_I])
             # frames addressed to the intruder
-            to_i = [e for e in obs["log"] if e.node == "S" and ((e.can_id >> 8) & 0xFF) == D.SA_I]
+            to_i = [e for e in obs["log"] if e.node == "S" and ((e.can_id >> 8) & 0xFF) == SA_I]
             if p["intruder"].startswith("other_sa"):
                 for e in to_i:
                     pf = (e.can_id >> 16) & 0xFF
@@ -157,7 +165,7 @@ class C19:
                     sigs.append((shape, p["intruder"], p["copies"], k))
                 # application never consulted for the intruder; data / outcome / completion unchanged
                 if obs["proceeds"] != base["proceeds"] or obs["notifies"] != base["notifies"]:
-                    extra = [a for a in obs["proceeds"] if a.get("sa") == D.SA_I]
+                    extra = [a for a in obs["proceeds"] if a.get("sa") == SA_I]
                     V("intruder-reached-application", "proceed/notify callbacks differ from the undisturbed run (%d/%d vs %d/%d calls%s)" %
                       (len(obs["proceeds"]), obs["notifies"], len(base["proceeds"]), base["notifies"],
                        "; called for the intruder's address" if extra else ""))
